@@ -192,6 +192,80 @@ func checkHistory(c *corr.Ctx, cc *ConcCase, where string, budget time.Duration)
 				fmt.Sprintf("item %d was accepted (returned at %d) and the queue was drained before Close (called at %d), but it was never pulled", id, a.Ret, closeCall))
 		}
 	}
+	// real-time order across producers: an item whose Push had returned before the Push of an
+	// already-pulled item began must not be pulled after it
+	{
+		var maxCall int64 = -1
+		maxID := 0
+		for _, p := range pulls {
+			a, ok := accepted[p.ID]
+			if !p.OK || !ok {
+				continue
+			}
+			if a.Ret < maxCall {
+				v("items are executed in acceptance order", "conc-order",
+					fmt.Sprintf("item %d (push returned at %d) was pulled after item %d (push began at %d)", p.ID, a.Ret, maxID, maxCall))
+				break
+			}
+			if a.Call > maxCall {
+				maxCall, maxID = a.Call, a.ID
+			}
+		}
+	}
+	// capacity, from interval counting (exact arguments, valid for histories of any length, applied
+	// to operations that end before any Close begins):
+	//   a refused Push: at most (accepted pushes begun before it returned) - (pulls returned before it
+	//   began) items can have been held -> must be >= capacity;
+	//   an accepted Push: at least (accepted pushes returned before it began) - (pulls begun before it
+	//   returned) items were held -> must be < capacity
+	{
+		var maxT int64
+		for _, op := range h {
+			if op.Ret > maxT {
+				maxT = op.Ret
+			}
+		}
+		accCallBefore := make([]int32, maxT+2) // accepted pushes with Call < t
+		accRetBefore := make([]int32, maxT+2)  // accepted pushes with Ret < t
+		pullCallBefore := make([]int32, maxT+2)
+		pullRetBefore := make([]int32, maxT+2)
+		for _, op := range h {
+			switch {
+			case op.Kind == "push" && op.OK:
+				accCallBefore[op.Call+1]++
+				accRetBefore[op.Ret+1]++
+			case op.Kind == "pull" && op.OK:
+				pullCallBefore[op.Call+1]++
+				pullRetBefore[op.Ret+1]++
+			}
+		}
+		for t := int64(1); t < maxT+2; t++ {
+			accCallBefore[t] += accCallBefore[t-1]
+			accRetBefore[t] += accRetBefore[t-1]
+			pullCallBefore[t] += pullCallBefore[t-1]
+			pullRetBefore[t] += pullRetBefore[t-1]
+		}
+		for _, op := range h {
+			if op.Kind != "push" || (closeCall >= 0 && op.Ret > closeCall) {
+				continue
+			}
+			if !op.OK {
+				upper := int(accCallBefore[op.Ret]) - int(pullRetBefore[op.Call])
+				if upper < int(cc.Size) {
+					v("an item is refused only when the queue holds its capacity", "conc-refused-not-full",
+						fmt.Sprintf("push %d refused although at most %d of %d items can have been held", op.ID, upper, cc.Size))
+					break
+				}
+			} else {
+				lower := int(accRetBefore[op.Call]) - int(pullCallBefore[op.Ret])
+				if lower >= int(cc.Size) {
+					v("the queue never holds more than its capacity", "conc-over-capacity",
+						fmt.Sprintf("push %d accepted although at least %d items (capacity %d) were held", op.ID, lower, cc.Size))
+					break
+				}
+			}
+		}
+	}
 	// linearizability
 	if len(h) <= 4000 {
 		res := porcupine.CheckOperationsTimeout(fifoModel(int(cc.Size)), toPorcupine(h), budget)
